@@ -442,6 +442,21 @@ def _gen_spec_once(rng, pf):
                 fn = "0.05+" + fn
             p["function"] = fn
             p["db"] = bool(rng.random() < 0.2)
+    # a chain below a (programme-targetable) data parameter: A -> B = f(A) (no links, depends on parameters only) -> C = g(B) drives
+    # a link.  While programmes overwrite A, B and C must follow it.
+    if rng.random() < 0.2:
+        As = [q for q in pars if not q["timed"] and q["function"] is None and q["db"] and q["format"] in ("probability", "rate", None) and not q["name"].startswith("birth")]
+        Cs = [q for q in pars if not q["timed"] and q["function"] is None and q["name"].startswith("q") and q["format"] in ("probability", "rate")]
+        if As and Cs:
+            A_ = _choice(rng, As)
+            C_ = _choice(rng, [q for q in Cs if q is not A_] or Cs)
+            if C_ is not A_:
+                k = _f(rng.uniform(0.3, 1.5))
+                B_ = {"name": "aux%d" % sum(1 for q in pars if q["name"].startswith("aux")), "format": None, "timescale": None, "min": None, "max": None, "function": _choice(rng, ["%s*%s" % (k, A_["name"]), "min(%s,%s)+0.05" % (A_["name"], k), "%s**2/(1+%s)+%s" % (A_["name"], A_["name"], _f(k / 10))]), "db": False, "timed": False, "targetable": False}
+                pars.insert(pars.index(C_), B_)
+                C_["function"] = _choice(rng, ["%s*%s/(%s+1)" % (k, B_["name"], B_["name"]), "min(%s,%s)" % (B_["name"], k), "%s*%s" % (_f(k / 2), B_["name"])])
+                C_["db"] = False
+                A_["_force_targetable"] = True
     # output-only parameters (functions of flows) are never dependencies
     if rng.random() < 0.4 and trans:
         (a, b) = _choice(rng, [k for k in trans if trans[k] != [">"] and k[0] not in juncs] or list(trans))
@@ -482,7 +497,8 @@ def _gen_spec_once(rng, pf):
             continue
         if p["name"].startswith("birth"):
             continue
-        if rng.random() < pf["p_targetable"]:
+        forced = p.pop("_force_targetable", False)
+        if rng.random() < pf["p_targetable"] or forced:
             p["targetable"] = True
 
     # --- limits -------------------------------------------------------------------------------
@@ -561,6 +577,19 @@ def _gen_spec_once(rng, pf):
                 else:
                     k = int(rng.integers(0, len(v["v"])))
                     v["v"] = [(-abs(x) - 0.1) if (i >= k) else x for i, x in enumerate(v["v"])]
+        # ... and on junction proportions (a negative proportion sends nobody that way and does not enter the normalisation);
+        # plain junctions keep their first proportion positive (below)
+        for j in juncs:
+            outs_j = [x for (a, b) in trans if a == j for x in trans[(a, b)] if x != ">"]
+            for pname in outs_j:
+                p = [q for q in pars if q["name"] == pname][0]
+                if p["db"] and p["function"] is None and p["min"] is None and pname in values and rng.random() < 0.35:
+                    pop = pops[int(rng.integers(0, len(pops)))]
+                    v = values[pname][pop]
+                    if "a" in v and v["a"] is not None:
+                        v["a"] = -abs(v["a"]) - 0.1
+                    elif v.get("v"):
+                        v["v"] = [-abs(x) - 0.1 for x in v["v"]]
     # plain junctions need a positive proportion somewhere
     for j in juncs:
         outs = [(a, b) for (a, b) in trans if a == j]
